@@ -265,6 +265,8 @@ def build_move(spec: dict, env: MoveEnv, path: str):
         return out
     if t == "mul":
         return build_move(spec["item"], env, f"{path}.x") * int(spec["n"])
+    if t == "wrap":
+        return qm.CompositeMove([build_move(s, env, f"{path}.{i}") for i, s in enumerate(spec["items"])])
     if t == "bare":
         log = []
         mv = BareMove(spec.get("results", [True]), log, spec.get("kind", "disp"), spec.get("step", 0.05))
@@ -736,8 +738,8 @@ class World:
 
 def spec_kind(mspec: dict, sc: dict | None = None) -> str:
     t = mspec["type"]
-    if t == "sum":
-        return "sum(" + ",".join(spec_kind(s, sc) for s in mspec["items"]) + ")"
+    if t in ("sum", "wrap"):
+        return t + "(" + ",".join(spec_kind(s, sc) for s in mspec["items"]) + ")"
     if t == "mul":
         return f"mul({spec_kind(mspec['item'], sc)})"
     if t == "ref":
@@ -762,8 +764,8 @@ def spec_cat(mspec: dict, sc: dict | None = None) -> str:
             if e.get("name", f"m{i}") == mspec["of"]:
                 return spec_cat(e["move"], sc)
         return "ref"
-    if t in ("sum", "mul"):
-        items = mspec["items"] if t == "sum" else [mspec["item"]]
+    if t in ("sum", "mul", "wrap"):
+        items = mspec["items"] if t in ("sum", "wrap") else [mspec["item"]]
         cats = set()
         for it in items:
             c = spec_cat(it, sc)
